@@ -551,6 +551,36 @@ enum Call {
     Gen,
     Arb(usize),
     Reset,
+    /// a write to a public configuration field between calls (the configuration the next call
+    /// "depends only on" is then the written one)
+    Set(u8),
+}
+
+const N_SETS: u8 = 8;
+
+fn apply_set(g: &mut pickle_fuzzer::Generator, k: u8) {
+    match k {
+        0 => g.allow_ext_opcodes = !g.allow_ext_opcodes,
+        1 => g.allow_buffer_opcodes = !g.allow_buffer_opcodes,
+        2 => {
+            let v = (g.state.version as usize + 1) % 6;
+            g.state.version = pickle_fuzzer::Version::try_from(v).expect("proto");
+        }
+        3 => {
+            let v = (g.state.version as usize + 5) % 6;
+            g.state.version = pickle_fuzzer::Version::try_from(v).expect("proto");
+        }
+        4 => {
+            g.min_opcodes = g.min_opcodes / 2 + 3;
+            g.max_opcodes = g.min_opcodes + 40;
+        }
+        5 => g.mutation_rate = if g.mutation_rate == 1.0 { 0.25 } else { 1.0 },
+        6 => g.unsafe_mutations = !g.unsafe_mutations,
+        _ => {
+            g.allow_ext_opcodes = true;
+            g.allow_buffer_opcodes = true;
+        }
+    }
 }
 
 fn history_name(h: &[Call]) -> String {
@@ -559,6 +589,7 @@ fn history_name(h: &[Call]) -> String {
             Call::Gen => "G".to_string(),
             Call::Arb(i) => format!("A{}", i),
             Call::Reset => "R".to_string(),
+            Call::Set(k) => format!("S{}", k),
         })
         .collect::<Vec<_>>()
         .join(",")
@@ -569,10 +600,16 @@ fn check_history(cfg: &Config, inputs: &[Vec<u8>], hist: &[Call], acc: &mut Acc)
     let mut g = cfg.build();
     let mut prev: Option<Vec<u8>> = None;
     let mut n_gen = 0;
+    let mut sets: Vec<u8> = Vec::new();
     for (k, c) in hist.iter().enumerate() {
         let ent = match c {
             Call::Reset => {
                 g.reset();
+                continue;
+            }
+            Call::Set(j) => {
+                apply_set(&mut g, *j);
+                sets.push(*j);
                 continue;
             }
             Call::Gen => cfg.entropy.clone(),
@@ -585,7 +622,11 @@ fn check_history(cfg: &Config, inputs: &[Vec<u8>], hist: &[Call], acc: &mut Acc)
             entropy: ent.clone(),
             ..cfg.clone()
         };
+        // same configuration: built the same way, then the same field writes, no earlier call
         let mut fg = cfg.build();
+        for j in &sets {
+            apply_set(&mut fg, *j);
+        }
         let want = gen_once(&mut fg, &ent);
         let (gb, wb) = match (&got, &want) {
             (Outcome::Ok(a), Outcome::Ok(b)) => (a.clone(), b.clone()),
@@ -610,7 +651,7 @@ fn check_history(cfg: &Config, inputs: &[Vec<u8>], hist: &[Call], acc: &mut Acc)
                 signature: format!("C08:reuse:{}:P{}", if appended { "appended" } else { "differs" }, cfg.proto),
                 message: format!("{} [{}]", msg, cfg.short()),
                 replay: json!({"kind": "c08-history", "property": "C08", "config": fresh_cfg.to_json(),
-                    "history": history_name(hist), "inputs_hex": inputs.iter().map(|b| hex(b)).collect::<Vec<_>>(),
+                    "history": history_name(hist), "field_writes": "S0 ext flag flipped, S1 buffer flag flipped, S2/S3 state.version +1/-1, S4 opcode range, S5 rate, S6 unsafe flag flipped, S7 both opt-in flags on", "inputs_hex": inputs.iter().map(|b| hex(b)).collect::<Vec<_>>(),
                     "failing_call": k, "message": msg,
                     "got_head_hex": hex(&gb[..gb.len().min(64)]), "want_head_hex": hex(&wb[..wb.len().min(64)])}),
             });
@@ -626,6 +667,9 @@ fn check_history(cfg: &Config, inputs: &[Vec<u8>], hist: &[Call], acc: &mut Acc)
     }
     if hist.iter().any(|c| matches!(c, Call::Reset)) {
         acc.count("histories_with_reset", 1);
+    }
+    if !sets.is_empty() {
+        acc.count("histories_with_public_field_writes", 1);
     }
     if acc.samples.len() < 4 && n_gen >= 2 {
         acc.sample(json!({"config": cfg.to_json(), "history": history_name(hist)}));
@@ -682,12 +726,37 @@ pub fn c08(thorough: bool, seed: u64) -> CheckOutput {
                 let h: Vec<Call> = (0..len).map(|_| alphabet[rng.below(4) as usize].clone()).collect();
                 check_history(&cfg, &inputs, &h, acc);
             }
+            // histories with writes to the public configuration fields between calls: every
+            // (call, write, call) and (call, reset, write, call) for this configuration, plus
+            // sampled longer ones
+            if cfg.min < 2000 {
+                let gens = [Call::Gen, Call::Arb(0)];
+                for j in 0..N_SETS {
+                    let a = gens[(i + j as usize) % 2].clone();
+                    let b = gens[(i / 2 + j as usize) % 2].clone();
+                    check_history(&cfg, &inputs, &[a.clone(), Call::Set(j), b.clone()], acc);
+                    check_history(&cfg, &inputs, &[a, Call::Reset, Call::Set(j), b], acc);
+                }
+                for _ in 0..n_sampled {
+                    let len = 4 + rng.below(4) as usize;
+                    let h: Vec<Call> = (0..len)
+                        .map(|_| {
+                            if rng.below(3) == 0 {
+                                Call::Set(rng.below(N_SETS as u64) as u8)
+                            } else {
+                                alphabet[rng.below(4) as usize].clone()
+                            }
+                        })
+                        .collect();
+                    check_history(&cfg, &inputs, &h, acc);
+                }
+            }
         },
         |a, b| a.merge(b),
     );
     CheckOutput {
         acc,
-        rule: "cases = (configuration, history) pairs: every history of length 1..3 over {generate, generate_from_arbitrary(x0), generate_from_arbitrary(x1), reset} (84, exhaustive) plus sampled histories of length 4..6, for configurations drawn from the full matrix on all six protocols; every generation call of the history is compared byte-for-byte with a fresh generator given only that call; distinct = distinct (config, history); non-trivial = history has at least two generation calls".into(),
+        rule: "cases = (configuration, history) pairs: every history of length 1..3 over {generate, generate_from_arbitrary(x0), generate_from_arbitrary(x1), reset} (84, exhaustive) plus sampled histories of length 4..6, plus histories with writes to the public configuration fields between calls (opt-in flags, state.version, range, rate, unsafe flag; the fresh generator gets the same writes and no earlier call), for configurations drawn from the full matrix on all six protocols; every generation call of the history is compared byte-for-byte with a fresh generator given only that call; distinct = distinct (config, history); non-trivial = history has at least two generation calls".into(),
         extra: json!({"exhaustive_histories_up_to_length_3": exhaustive.len()}),
         assumptions: vec!["generate() is compared only with a seed set (unseeded generation is not reproducible by design)".into()],
         exhaustive: None,
